@@ -482,6 +482,126 @@ def _copy(it, x):
 
 
 # ------------------------------------------------------------------------------------------------
+# regular expressions: concrete subjects go to CPython's re, structured ones to pyvc.xregex
+
+
+def _re_args_native(pattern, subject):
+    from .strings import XStr
+    return isinstance(pattern, str) and isinstance(subject, str)
+
+
+def _pat(it, pattern):
+    from .strings import XStr, Undetermined
+    if isinstance(pattern, XStr):
+        pattern = pattern.simplify()
+    if not isinstance(pattern, str):
+        raise Undetermined('regular expression built from an unknown string')
+    return pattern
+
+
+def _conc(m, v):
+    from .strings import XStr
+    if isinstance(v, XStr):
+        return v.concretize(m)
+    if isinstance(v, tuple):
+        return tuple(_conc(m, x) for x in v)
+    if isinstance(v, SList):
+        return [_conc(m, x) for x in v.items]
+    return v
+
+
+def _xcheck(it, kind, real_fn, pattern, subject, flags, result, extra=()):
+    """Differential guard of the symbolic matcher (DESIGN 2.10): instantiate the subject with a
+    model of the current path condition and compare with CPython's re on the real pattern."""
+    ctx = it.ctx
+    r, m = ctx._check(z3.BoolVal(True), ctx.FEAS_TIMEOUT_MS)
+    if r != z3.sat:
+        return result
+    s = _conc(m, subject)
+    try:
+        if kind in ('match', 'fullmatch', 'search'):
+            real = real_fn(pattern, s, flags)
+            if (real is None) != (result is None):
+                raise EngineError(f'xregex self-check: {kind}({pattern!r}, {s!r}) disagrees on '
+                                  f'whether there is a match')
+            if real is not None:
+                got = tuple(_conc(m, result.group(k)) for k in range(0, result.ngroups + 1))
+                want = tuple(real.group(k) for k in range(0, result.ngroups + 1))
+                if got != want:
+                    raise EngineError(f'xregex self-check: groups differ for {s!r}: {got} / {want}')
+        elif kind == 'findall':
+            if _conc(m, result) != real_fn(pattern, s, flags):
+                raise EngineError(f'xregex self-check: findall differs for {s!r}')
+        elif kind == 'sub':
+            if _conc(m, result) != real_fn(pattern, extra[0], s, 0, flags):
+                raise EngineError(f'xregex self-check: sub differs for {s!r}')
+    except re.error:
+        pass
+    it.xregex_checks = getattr(it, 'xregex_checks', 0) + 1
+    return result
+
+
+def _native_re(fn, *a, **k):
+    I = _I()
+    try:
+        return fn(*a, **k)
+    except Exception as e:
+        raise I.PyRaise(type(e), e.args)
+
+
+@model(re.match)
+def _re_match(it, pattern, string, flags=0):
+    from . import xregex
+    pattern = _pat(it, pattern)
+    if isinstance(string, str):
+        return _native_re(re.match, pattern, string, flags)
+    return _xcheck(it, 'match', re.match, pattern, string, int(flags),
+                   xregex.match(it, pattern, string, int(flags)))
+
+
+@model(re.fullmatch)
+def _re_fullmatch(it, pattern, string, flags=0):
+    from . import xregex
+    pattern = _pat(it, pattern)
+    if isinstance(string, str):
+        return _native_re(re.fullmatch, pattern, string, flags)
+    return _xcheck(it, 'fullmatch', re.fullmatch, pattern, string, int(flags),
+                   xregex.match(it, pattern, string, int(flags), full=True))
+
+
+@model(re.search)
+def _re_search(it, pattern, string, flags=0):
+    from . import xregex
+    pattern = _pat(it, pattern)
+    if isinstance(string, str):
+        return _native_re(re.search, pattern, string, flags)
+    return _xcheck(it, 'search', re.search, pattern, string, int(flags),
+                   xregex.search(it, pattern, string, int(flags)))
+
+
+@model(re.findall)
+def _re_findall(it, pattern, string, flags=0):
+    from . import xregex
+    pattern = _pat(it, pattern)
+    if isinstance(string, str):
+        return lift_native_result(it, _native_re(re.findall, pattern, string, flags))
+    return _xcheck(it, 'findall', re.findall, pattern, string, int(flags),
+                   xregex.findall(it, pattern, string, int(flags)))
+
+
+@model(re.sub)
+def _re_sub(it, pattern, repl, string, count=0, flags=0):
+    from . import xregex
+    pattern = _pat(it, pattern)
+    if isinstance(string, str) and isinstance(repl, str):
+        return _native_re(re.sub, pattern, repl, string, count, flags)
+    if count:
+        raise EngineError('re.sub with count')
+    return _xcheck(it, 'sub', re.sub, pattern, string, int(flags),
+                   xregex.sub(it, pattern, repl, string, int(flags)), extra=(repl,))
+
+
+# ------------------------------------------------------------------------------------------------
 # container methods
 
 
